@@ -436,7 +436,7 @@ def placed(T, pl):
 
 PLACEMENTS = ("d-eps", "d:before", "d:after", "d+eps", "d-res")
 KINDS = ("ann_stop", "unannounce", "stop_restart", "find_uc", "find_mc", "find_mc_then_stop", "find_uc_and_stop", "stop_and_find_uc",
-         "stop_then_find", "lost_then_stop", "double_stop", "find_wild_mc")
+         "stop_then_find", "lost_then_stop", "double_stop", "find_wild_mc", "late_stop")
 
 
 def find_action(k, mc, peer=PEER, wild=False):
@@ -468,6 +468,12 @@ def single_scenario(cfg, kind, j, pl):
                      "d:after": "stops_at_instant_after", "d-res": "stops_within_resolution_before_instant"}[pl])
     if kind == "ann_stop":
         script.append((t, rank, dict(kind="ann_stop")))
+    elif kind == "late_stop":
+        # stopped long after the transmission at T[j]: more than one (finite) TTL later, when every receiver has already
+        # let the offer run out - the StopOffer is owed all the same
+        late = t + (cfg["ttl"] if cfg["ttl"] != FOREVER else 3) + 1.0 + 2.0 ** -7
+        script.append((late, BEFORE, dict(kind=("ann_stop", "unannounce")[j % 2], **({"k": 0} if j % 2 else {}))))
+        tags.append("stops_later_than_one_ttl_after_an_offer")
     elif kind == "unannounce":
         script.append((t, rank, dict(kind="unannounce", k=0)))
     elif kind == "stop_restart":
